@@ -641,7 +641,16 @@ impl Session {
                 #[cfg(feature = "verif")]
                 crate::verif::point("hf.fin").await;
                 let mut streams = self.streams.write().await;
-                streams.remove(&frame.stream_id);
+                if let Some(stream) = streams.remove(&frame.stream_id) {
+                    // The peer ended the stream: an open that is still waiting for
+                    // its answer can no longer succeed, and nobody else would tell it
+                    // (close() only notifies streams that are still in the table).
+                    stream
+                        .fail_pending_open(AnyTlsError::Protocol(
+                            "stream closed by peer before it was acknowledged".into(),
+                        ))
+                        .await;
+                }
                 #[cfg(feature = "verif")]
                 crate::verif::point("hf.fin.between").await;
                 let mut receive_map = self.stream_receive_tx.write().await;
